@@ -94,6 +94,20 @@ func ruleWAddr(c *Ctx) {
 		ok := len(calls) == 1 && calls[0] == "copy(alloc#0[0:len(alloc#0)], p0[21:len(p0)])"
 		c.Check(ok, "W-addr", "a25.embeddedChecksum", fn.Pos(), "the embedded checksum is bytes 21..25", "the validator no longer reads the embedded checksum from bytes 21..25: "+strings.Join(calls, "; "))
 	}
+	// the string is validated as given
+	if fn := get("", "ValidateAddress"); fn != nil {
+		calls, _, _ := termsOfCalls(fn)
+		okV, okD := false, false
+		for _, cl := range calls {
+			if cl == "validA58([]byte(p0))" {
+				okV = true
+			}
+			if cl == "DecodeBIP276(p0)" {
+				okD = true
+			}
+		}
+		c.Check(okV && okD, "W-addr", "ValidateAddress/as-given", fn.Pos(), "the caller's string itself is handed to validA58 / DecodeBIP276", "ValidateAddress transforms the string before validating it (trimmed, lower-cased ...): it accepts strings that the address constructors reject")
+	}
 	// decoder: 25 bytes, hash = bytes 1..21
 	if fn := get("", "addressToPubKeyHashStr"); fn != nil {
 		_, _, rets := termsOfCalls(fn)
